@@ -441,7 +441,8 @@ struct Builder {
 
 impl Builder {
     fn node(&mut self, cfg: &Cfg, id: &str, lower: bool, upper: bool, top_layer: Option<usize>) -> VfsPath {
-        let underlying = id != "0";
+        // (every wrapped node counts as "a call into a filesystem" for the fault injector)
+        let underlying = true;
         let fs: Box<dyn FileSystem> = match cfg {
             Cfg::Mem => {
                 let shared = SharedFs(Arc::new(MemoryFS::new()));
